@@ -1185,7 +1185,11 @@ const COLORS: [RGBA; 16] = [
     RGBA::new(255, 255, 255, 255),
 ];
 
-fn sgr_color<'a>(mut cmds: impl Iterator<Item = &'a [u8]>) -> Option<RGBA> {
+/// Decode SGR color arguments
+///
+/// `colon` is true if arguments are `:` separated sub-parameters of a single SGR
+/// parameter, otherwise these are following `;` separated SGR parameters.
+fn sgr_color<'a>(mut cmds: impl Iterator<Item = &'a [u8]>, colon: bool) -> Option<RGBA> {
     match number_decode(cmds.next()?)? {
         5 => {
             // color from 256 color palette
@@ -1209,6 +1213,15 @@ fn sgr_color<'a>(mut cmds: impl Iterator<Item = &'a [u8]>) -> Option<RGBA> {
         }
         2 => {
             // true color
+            if !colon {
+                // `38;2;r;g;b` always contains exactly three components, everything
+                // that follows belongs to the next SGR parameters
+                let r = cmds.next().and_then(number_decode)?;
+                let g = cmds.next().and_then(number_decode)?;
+                let b = cmds.next().and_then(number_decode)?;
+                return Some(RGBA::new(r as u8, g as u8, b as u8, 255));
+            }
+            // `38:2:r:g:b` or `38:2:<color-space>:r:g:b`
             //
             // It can contain either three or four components
             // in the case of four first component is ignored
@@ -1238,9 +1251,9 @@ fn sgr_face(data: &[u8]) -> FaceModify {
         let args_empty = args.size_hint().0 == 0;
         let mut sgr_color_thunk = || {
             if args_empty {
-                sgr_color(&mut groups)
+                sgr_color(&mut groups, false)
             } else {
-                sgr_color(&mut args)
+                sgr_color(&mut args, true)
             }
         };
         match cmd {
